@@ -28,6 +28,8 @@ var c02Headers = []c02Hdr{
 	// hop-by-hop headers of an HTTP/1.1 client (RFC 9110 7.6.1: "Connection: TE" accompanies every TE header);
 	// the second one names headers that the target protocol needs
 	{"Connection", []string{"TE"}}, {"Connection", []string{"close, Grpc-Encoding, Content-Type, Te, Connect-Protocol-Version"}}, {"Keep-Alive", []string{"timeout=5"}},
+	// (metadata for a client of another protocol; the version header of the request for a Connect backend)
+	{"Connect-Protocol-Version", []string{"2"}},
 }
 
 func inStrs(s string, list []string) bool {
@@ -107,6 +109,9 @@ func init() {
 			if e.k == "Content-Length" {
 				autoCL = true
 				continue
+			}
+			if e.k == "Connect-Protocol-Version" && e.v[0] != "1" && b.Client.form.Family() == "connect" {
+				continue // (for a Connect client that is its own protocol's version header, not metadata)
 			}
 			hdr[e.k] = append(hdr[e.k], e.v...)
 		}
